@@ -1,5 +1,5 @@
 From Coq Require Import List Arith Bool String.
-From Wire Require Import Sets Acyclic Solve Names Front Exec Model Emit Cli CopyAst ModelThms NamesThms Bridge ProcessWF Perm PermModel EmitThms Regroup RegroupModel.
+From Wire Require Import Sets Acyclic Solve Names Front Exec Model Emit Cli CopyAst ModelThms NamesThms Bridge ProcessWF Perm PermModel EmitThms Regroup RegroupModel SolveBound SolveBoundModel.
 From Wire Require Show.
 From Wire Require Rename.
 Import ListNotations.
@@ -178,6 +178,17 @@ Theorem C15_renaming_never_captures : forall (scope : list string) (xs0 : list R
      (~ In (snd p) scope /\ ~ In (snd p) used /\ Rename.wants scope (fst p) = true)).
 Proof. intros scope xs0 H. exact (Rename.rename_no_capture scope xs0 H). Qed.
 Print Assumptions C15_renaming_never_captures.
+
+(* C07 (planner): for every set the analysis accepts and every requested type, the loop of analyze.go:solve completes
+   within solve_fuel pm = 4 + 2 * (number of keys + number of dependency edges) iterations -- linear in the size of
+   the provider map, whatever the number of paths through it (Solve.solve_sim carried with the weight of the
+   index as potential: SolveBound.solve_sim_bounded) *)
+Theorem C07_planner_linear_bound : forall tyorder args s pm out,
+  process_set tyorder args s = inl pm ->
+  exists st usedk,
+    machine2 (core_pm pm) (List.length args) (solve_fuel pm) [out] (init_state args) [] = Some (st, usedk).
+Proof. exact accepted_solve_never_out_of_fuel. Qed.
+Print Assumptions C07_planner_linear_bound.
 
 (* ------------------------------------------------------------------ C09 *)
 Theorem C09_results : forall rs c e, func_output rs = FoOk c e <-> legal_results rs c e.
